@@ -947,6 +947,6 @@ class Parser:
         import io
 
         tok_stream = generate_tokens(io.StringIO(source, newline=None).readline)
-        tokenizer = Tokenizer(tok_stream, verbose=verbose)
+        tokenizer = Tokenizer(tok_stream, verbose=verbose, source=source)
         parser = cls(tokenizer, verbose=verbose, py_version=py_version)
         return parser.parse(mode if mode == "eval" else "file")
